@@ -145,10 +145,14 @@ class CartesianProduct(Constructor[CombinatorialClassType, CombinatorialObjectTy
     ) -> sympy.Eq:
         res = 1
         for extra_parameters, rhs_func in zip(self.extra_parameters, rhs_funcs):
-            res *= rhs_func.subs(
-                {child: parent for parent, child in extra_parameters.items()},
-                simultaneous=True,
-            )
+            # several parent variables can map to the same child variable
+            subs: Dict[str, sympy.Expr] = {}
+            for parent, child in extra_parameters.items():
+                if child in subs:
+                    subs[child] *= sympy.var(parent)
+                else:
+                    subs[child] = sympy.var(parent)
+            res *= rhs_func.subs(subs, simultaneous=True)
         return sympy.Eq(lhs_func, res)
 
     def reliance_profile(self, n: int, **parameters: int) -> RelianceProfile:
